@@ -23,6 +23,14 @@ CHECKS = {
          "Histories of Clear/AddPoint/AddEdge/TestPoint/TestEdge/Compute/CurrentPoint are generated as values (so the whole history shrinks), run against PolygonArea, PolygonAreaExact and PolygonAreaRhumb (polygon and polyline), and compared with the model after every step; separate metamorphic sub-check for start vertex, orientation, flags, longitude shifts and diagonal cuts.",
          "Precondition of the property (unique shortest edges) is enforced by the model, which refuses nearly antipodal / pole-crossing edges (counted, not judged). Rhumb edges use the library's per-edge Rhumb results (validated by C09); only the assembly is independent there. Negative edge lengths are not generated (undocumented input).",
          "DESIGN.md section 3/C08"),
+ "C18": ("rapidcheck + enumeration + libFuzzer", "property-based testing against independent cell decoders in exact rational arithmetic; complete enumeration of all low-precision codes; coverage-guided fuzzing of the decoders with a reference acceptor and Forward(Reverse) oracle inside the target",
+         "Containment of the position in the decoded cell is decided exactly (2-ulp band only around non-representable cell edges), alphabets, prefix property, centre/SW-corner decoding, case-insensitivity and rejection of malformed strings are checked for Geohash, GARS, Georef and OSGB; all Geohash codes up to length 3, all Georef 2/4-letter tiles, all OSGB pairs and the GARS tiles x suffixes are enumerated.",
+         "Reference cell models (ref/grid.hpp) written from the headers' descriptions; 'outputs untouched on throw' is asserted from the property text. Fuzz campaigns are seeded (approximately reproducible); artifacts are the reproducible unit.",
+         "DESIGN.md section 3/C18"),
+ "C05": ("rapidcheck + enumeration + libFuzzer", "property-based testing against an independent MGRS model (own letter tables, exact digit truncation from the exact value of the double, geometric block legality); exhaustive enumeration of every zone/band/column/row combination; fuzzing of MGRS::Reverse",
+         "Forward strings must be among the reference candidates (exact floor(1e6 x) digits, prefix property exact), letters and band per the certified latitude, round trips exact for prec <= 5; all 1 353 352 zone x letter combinations are judged for acceptance against geometry.",
+         "Latitudes used for band classification are certified by an independent forward map (order-30 Krueger series / closed-form polar stereographic) with a 10 nm guard band. Lower-case input acceptance is not judged (header silent).",
+         "DESIGN.md section 3/C05"),
  "C01": ("rapidcheck", "property-based testing against an independent long-double geodesic-ODE reference; differential across 8 solver/line configurations; metamorphic reversal",
          "Generated-input exploration: every generated direct problem is compared with a reference that integrates the geodesic equation itself (no series, no auxiliary sphere), to 2x the documented accuracy for the flattening. Exploration is the right level: the property quantifies over a continuum of inputs and an executable oracle exists.",
          "Trusts: the reference ODE integrator (self-checked per case by step halving, constraint projection), x87 long double, the tolerance formulas of DESIGN section 2 (2x documented accuracy, scaled by length in quarter circuits). Errors below the documented accuracy are not violations.",
